@@ -63,6 +63,13 @@ class Lin:
                 and isinstance(t[0][0], str) and re.search(r"split_at(_mut)?$", t[0][0]) and len(t[0]) == 3:
             mid = self.lin(t[0][2])
             return mid if t[1].startswith(".0") else add(self.len_lin(t[0][1]), mid, -1)
+        # an item of chunks_exact(_mut)(s, n), possibly reached through zip / enumerate / rev / take / skip: exactly n long
+        if isinstance(t, tuple) and len(t) == 2 and isinstance(t[1], str) and t[1].startswith(".some") and isinstance(t[0], tuple) \
+                and len(t[0]) == 2 and isinstance(t[0][0], str) and t[0][0].endswith("::next"):
+            comps = [c for c in t[1][len(".some"):].split(".") if c and c != "*"]
+            n = self._item_len(t[0][1], comps)
+            if n is not None:
+                return n
         if isinstance(t, tuple) and t and t[0] == "array":
             return {1: len(t) - 1} if len(t) > 1 else {}
         if isinstance(t, tuple) and t and isinstance(t[0], str) and re.match(r"[ui](8|16|32|64|128)::to_[bln]e_bytes$", t[0]):
@@ -84,6 +91,21 @@ class Lin:
                 re.search(r"(^|::)(to_vec|to_owned|into_vec|as_slice|as_mut_slice|as_ref|deref|deref_mut)$|^(String|str)::as_bytes$", t[0]):
             return self.len_lin(t[1])          # length-preserving views / copies
         return {self.namer.leaf(("len", t)): 1}
+
+    def _item_len(self, it, comps, depth=0):
+        it = strip(it)
+        if not (isinstance(it, tuple) and it and isinstance(it[0], str)) or depth > 6:
+            return None
+        nm = it[0]
+        if nm.endswith("::zip") and len(it) == 3 and comps and comps[0] in ("0", "1"):
+            return self._item_len(it[1 + int(comps[0])], comps[1:], depth + 1)
+        if nm.endswith("::enumerate") and len(it) == 2 and comps and comps[0] == "1":
+            return self._item_len(it[1], comps[1:], depth + 1)
+        if re.search(r"::(rev|take|skip|peekable|by_ref|into_iter)$", nm) and len(it) >= 2:
+            return self._item_len(it[1], comps, depth + 1)
+        if re.search(r"chunks_exact(_mut)?$", nm) and len(it) == 3 and not comps:
+            return self.lin(it[2])
+        return None
 
     def view(self, t):
         """(root, lo, hi): t denotes root[lo..hi] (lo, hi linear forms), following nested indexing / `get` with a range,
